@@ -439,15 +439,20 @@ long vorbis_book_decodevv_add(codebook *book,float **a,long offset,int ch,
                               oggpack_buffer *b,int n){
 
   long i,j,entry;
-  int chptr=0;
+  /* the n values belong to positions offset..offset+n-1 of the
+     interleaved vector; neither end needs to fall on a sample
+     boundary (residue begin and the partition size are not
+     restricted to multiples of the channel count) */
+  int chptr=offset%ch;
   if(book->used_entries>0){
-    int m=(offset+n)/ch;
-    for(i=offset/ch;i<m;){
+    int m=(offset+n+ch-1)/ch;
+    long left=n;
+    for(i=offset/ch;i<m && left>0;){
       entry = decode_packed_entry_number(book,b);
       if(entry==-1)return(-1);
       {
         const float *t = book->valuelist+entry*book->dim;
-        for (j=0;i<m && j<book->dim;j++){
+        for (j=0;i<m && left>0 && j<book->dim;j++,left--){
           a[chptr++][i]+=t[j];
           if(chptr==ch){
             chptr=0;
